@@ -1552,7 +1552,8 @@ output_3byte_vex_opcode (OrcCompiler *p, const OrcX86Insn *xinsn)
         byte2 |= orc_vex_get_rex (p, xinsn->dest, 0, xinsn->src[1]);
         break;
       case ORC_X86_INSN_TYPE_SSEM_SSE:
-        byte2 |= orc_vex_get_rex (p, xinsn->src[1], 0, xinsn->dest);
+        /* ModR/M.reg is the destination, ModR/M.rm the second source */
+        byte2 |= orc_vex_get_rex (p, xinsn->dest, 0, xinsn->src[1]);
         break;
       case ORC_X86_INSN_TYPE_NONE:
         break;
@@ -1610,18 +1611,20 @@ output_3byte_vex_opcode (OrcCompiler *p, const OrcX86Insn *xinsn)
       break;
   }
 
-  // Handle flags
+  // VEX.pp, the same mapping as in the two-byte form
   switch (xinsn->opcode->prefix) {
     case ORC_VEX_SIMD_PREFIX_F2:
+      byte3 |= 0x3;
+      break;
     case ORC_VEX_SIMD_PREFIX_F3:
       byte3 |= 0x2; 
       break;
     case ORC_VEX_SIMD_PREFIX_66:
     case ORC_SIMD_PREFIX_MMX:
-    case ORC_SIMD_PREFIX_ESCAPE_ONLY:
       byte3 |= 0x1; 
       break;
     case ORC_VEX_SIMD_PREFIX_NONE:
+    case ORC_SIMD_PREFIX_ESCAPE_ONLY:
       break;
     default:
       ORC_COMPILER_ERROR(p, "unhandled VEX.pp for instruction type %x", xinsn->opcode->prefix);
